@@ -232,6 +232,8 @@ class Hist(object):
         self.w = World("c10_")
         self.node = None
         self.model = Model(self.cfg.get("fmt", "gff3"))
+        self.mem = bool(self.cfg.get("memory"))  # ':memory:' database: one connection, nothing to reopen, no outside observer
+        self.dbn = ":memory:" if self.mem else DB
         self.viol = []
         self.strict = True  # exact auto-key numbers until the first failed op
         self.journal = []
@@ -290,7 +292,7 @@ class Hist(object):
                 self.v("C10.content", "%s: reading back failed: %s %s" % (where, r["exc"], r["msg"]), kind="dump_failed")
                 raise Stop()
             dumps.append(("handle", r["dump"]))
-        if observer:
+        if observer and not self.mem:
             obs = self.w.node()
             r = self.w.call(obs, {"op": "open", "h": "o", "db": DB})
             if r["ok"]:
@@ -370,7 +372,7 @@ class Hist(object):
 
     def backup_pre(self, op):
         mb = op.get("kw", {}).get("make_backup", True)
-        if not mb:
+        if not mb or self.mem:
             return None
         return logical(raw_dump(self.w.p(DB)))
 
@@ -452,6 +454,7 @@ class Hist(object):
         """The store must be one of the allowed states; the model adopts the matching one."""
         was_strict = self.strict
         self.strict = False
+        fresh = fresh and not self.mem
         node = self.w.node() if fresh else self.node
         if fresh:
             r = self.w.call(node, {"op": "open", "h": "h", "db": DB})
@@ -504,7 +507,9 @@ class Hist(object):
             for j, op in enumerate(ops):
                 self.step(j, op)
             # end of history: all vantage points agree with the model
-            if self.stop_at_reopen and "h" in self.handles():
+            if self.stop_at_reopen and self.mem and "h" in self.handles():
+                self.compare("end of history (same handle after fault)", node_dump=True, observer=False)
+            elif self.stop_at_reopen and "h" in self.handles():
                 self.compare("end of history (same handle after fault)", node_dump=True, observer=True)
                 self.call({"op": "drop", "h": "h"})
                 self.call({"op": "gc"})
@@ -530,7 +535,7 @@ class Hist(object):
         fault = op.get("fault")
         if k == "create":
             spec = G.source_spec(None, op["feats"], form=op["form"], d=self.dialect())
-            req = {"op": "create", "h": "h", "db": DB, "data": spec, "src": "op%d" % j,
+            req = {"op": "create", "h": "h", "db": self.dbn, "data": spec, "src": "op%d" % j,
                    "kw": dict(op["kw"], keep_order=self.cfg.get("keep_order", False), **self.fmt_kw())}
             if self.cfg.get("id_spec") is not None:
                 req["id_spec"] = self.cfg["id_spec"]
@@ -545,6 +550,9 @@ class Hist(object):
             self.compare("after create")
             return
         if k == "gc":
+            self.call({"op": "gc"})
+            return
+        if k in ("reopen", "restart") and self.mem:
             self.call({"op": "gc"})
             return
         if k in ("reopen", "restart") and self.stop_at_reopen:
@@ -650,6 +658,8 @@ class Hist(object):
                 return
             # an sql error / cancel inside the handle's own transaction (delete, add_relation) leaves that
             # connection with uncommitted work; the recovery step of the alphabet is close/reopen
+            if self.mem:
+                raise Stop()
             self.call({"op": "drop", "h": "h"})
             self.call({"op": "gc"})
             self.open_handle()
@@ -688,7 +698,7 @@ class Hist(object):
         op = {"op": "update", "feats": [f], "form": "list", "kw": {"merge_strategy": "create_unique", "make_backup": False}}
         self.mimport(self.model, [f], "create_unique")
         r = self.call(self.request(j, op))
-        if not r["ok"] and "locked" in r["msg"]:
+        if not r["ok"] and "locked" in r["msg"] and not self.mem:
             # recovery step allowed by the statement's alphabet: close/reopen the handle
             self.probes["liveness_needed_reopen"] = self.probes.get("liveness_needed_reopen", 0) + 1
             self.call({"op": "drop", "h": "h"})
@@ -851,10 +861,10 @@ def fault_profile(steps, cfg, seed, clause_prefix, n_point_faults=2):
                 kw["checklines"] = rng.choice([0, 0, 1, 2, 10])
             ops.append({"op": k, "feats": st["feats"], "form": st.get("form", "list"), "kw": kw})
         elif k in ("reopen", "restart", "gc"):
-            ops.append({"op": k})
+            ops.append({"op": k if not cfg.get("memory") else "gc"})
     if not ops or ops[0]["op"] != "create":
         return [], {}, {}
-    ops.append({"op": rng.choice(["reopen", "restart"])})
+    ops.append({"op": rng.choice(["reopen", "restart"]) if not cfg.get("memory") else "gc"})
     ops.append({"op": "update", "feats": [G.mf(["chr1", "src", "exon", 3, 9, ".", "+", "."], [["note", ["tail"]]]),
                                          G.mf(["chr1", "src", "exon", 3, 9, ".", "+", "."], [["ID", [rng.choice(["a", "b", "tailid"])]]])],
                 "form": "list", "kw": {"merge_strategy": "create_unique", "make_backup": False}})
@@ -866,9 +876,12 @@ def fault_profile(steps, cfg, seed, clause_prefix, n_point_faults=2):
         ks = list(range(len(ops[j]["feats"]) + 1))
         for k in rng.sample(ks, min(len(ks), 3)):
             variants.append({"at_op": j, "fault": {"src": k, "form": f}})
-        for _ in range(n_point_faults):
+        # (on a ':memory:' database a fault in the middle of one arrival leaves half of that arrival visible on the
+        #  shared connection - finer than the prefix granularity judged here - so only source failures are used there)
+        for _ in range(n_point_faults if not cfg.get("memory") else 0):
             variants.append({"at_op": rng.choice(upd), "fault": {"frac": rng.random(), "mode": rng.choice(["error", "crash", "cancel", "crash"])}})
-    case = {"cfg": {"fmf": list(cfg.get("fmf") or []), "keep_order": False, "id_spec": cfg.get("id_spec")}, "ops": ops, "variants": variants}
+    case = {"cfg": {"fmf": list(cfg.get("fmf") or []), "keep_order": False, "id_spec": cfg.get("id_spec"), "memory": bool(cfg.get("memory"))},
+            "ops": ops, "variants": variants}
     out = run(case)
     vs = []
     for v in out["violations"]:
